@@ -750,6 +750,18 @@ func c13Minimise(r *Run, c *c13Case, v *Violation) *Violation {
 		v.Note = "did not reproduce in a fresh process with class " + v.Class + " (got " + cls + "); original plan kept"
 		return v
 	}
+	// a hang costs the whole tick budget per probe: minimise under a reduced
+	// budget (still above anything a passing run needs) and confirm the result
+	// under the full one
+	full := cur.World.Budgets
+	if strings.HasPrefix(v.Class, "budget:ticks") {
+		red := c13Budgets()
+		red.Ticks = 4_000_000
+		cur.World.Budgets = &red
+		if cls, _ := c13Probe(r, &cur); cls != v.Class {
+			cur.World.Budgets = full
+		}
+	}
 	budget := 250
 	same := func(cand simrt.Case) bool {
 		budget--
@@ -809,6 +821,7 @@ func c13Minimise(r *Run, c *c13Case, v *Violation) *Violation {
 		}
 	}
 	// final confirmation in a fresh process
+	cur.World.Budgets = full
 	if cls, res := c13Probe(r, &cur); cls == v.Class {
 		v.Plan = jsonOf(simrt.WorkerPlan{Mode: "cases", Cases: []simrt.Case{cur}})
 		v.Min = true
